@@ -60,6 +60,8 @@ def registry():
     dates(reg)
     dates2(reg)
     dates3(reg)
+    overrides(reg)
+    overrides2(reg)
     return reg
 
 
@@ -965,3 +967,59 @@ def dates3(reg):
             }},
             notes='NETWORKDAYS without holidays counts the Monday-Friday dates of the inclusive interval, negated when '
                   'the interval is reversed; the holiday list is covered by the bounded monitor'))
+
+
+# ------------------------------------------------------------------------------------------------ C04 (runtime side)
+def overrides(reg):
+    wf = ('all(is_dict(arguments[i]) and has(arguments[i], "uid") and has(arguments[i], "value") '
+          'for i in range(len(arguments)))')
+    reg.add(Contract(
+        'set_arguments', 'runtime:set_arguments', {**SELF, 'arguments': 'list'}, self_class='ExcelInPython',
+        fields=['_arguments'], modifies=['_arguments'],
+        requires=[wf, 'is_dict(self._arguments)'],
+        ensures={
+            'is_dict': 'is_dict(self._arguments)',
+            'last_write_wins': 'all(get(self._arguments, get(arguments[i], "uid")) == get(arguments[i], "value") or '
+                               'any(j > i and get(arguments[j], "uid") == get(arguments[i], "uid") for j in range(len(arguments))) '
+                               'for i in range(len(arguments)))',
+            'supplied_present': 'all(has(self._arguments, get(arguments[i], "uid")) for i in range(len(arguments)))',
+        },
+        notes='the argument map after set_arguments maps every supplied uid to the value of its LAST occurrence in '
+              'the batch (frame for the other keys: clause others_kept of the keyed variant)'))
+    reg.add(Contract(
+        'set_arguments/frame', 'runtime:set_arguments', {**SELF, 'arguments': 'list', }, self_class='ExcelInPython',
+        fields=['_arguments'], modifies=['_arguments'],
+        requires=[wf, 'is_dict(self._arguments)'],
+        ensures={
+            'others_kept': 'implies(all(get(arguments[i], "uid") != ghost_key() for i in range(len(arguments))), '
+                           'has(self._arguments, ghost_key()) == has(old(self._arguments), ghost_key()) and '
+                           'implies(has(old(self._arguments), ghost_key()), '
+                           'get(self._arguments, ghost_key()) == get(old(self._arguments), ghost_key())))',
+        },
+        notes='a key not supplied in the batch keeps its presence and value (ghost_key is an arbitrary key)'))
+    reg.spec('ghost_key', lambda: z().Const('ghost_key', T().V), lambda: '__no_such_key__', 'an arbitrary key (universally quantified by being unconstrained)')
+
+
+def overrides2(reg):
+    def E():
+        from pv import symexpr
+        return symexpr
+    reg.spec('inst_dict', lambda o: E().obj_dict(_toV(o)), lambda o: o.__dict__, 'attribute table of the instance')
+    reg.spec('class_dict', lambda: E().obj_dict(T().V.Cls(z().IntVal(900))), lambda: {}, 'attribute table of the generated class')
+    reg.spec('raises1', lambda f, x: T().app1_raises(_toV(f), _toV(x)), lambda f, x: False, 'calling f(x) raises')
+    reg.spec('call1', lambda f, x: T().app1(_toV(f), _toV(x)), lambda f, x: f(x), 'value of f(x)')
+    meth = ('ite(has(inst_dict(self), cell_uid), get(inst_dict(self), cell_uid), '
+            'ite(has(class_dict(), cell_uid), get(class_dict(), cell_uid), None))')
+    reg.add(Contract(
+        '_cell_preprocessor', 'runtime:_cell_preprocessor', {**SELF, 'cell_uid': 'str'}, self_class='ExcelInPython',
+        fields=['_arguments'],
+        requires=['is_dict(self._arguments)',
+                  f'is_none({meth}) or is_fn({meth})'],
+        ensures={
+            'override_first': 'implies(has(self._arguments, cell_uid), result == get(self._arguments, cell_uid))',
+            'else_method': f'implies(not has(self._arguments, cell_uid) and is_fn({meth}), result == call1({meth}, self))',
+            'else_blank': f'implies(not has(self._arguments, cell_uid) and is_none({meth}), is_empty(result))',
+        },
+        raises={'Exception': f'not has(self._arguments, cell_uid) and is_fn({meth}) and raises1({meth}, self)'},
+        notes='override first, else the generated method, else blank; the method is not even evaluated for an '
+              'overridden cell (its exception cannot surface: the raises clause is an iff)'))
